@@ -592,7 +592,25 @@ func specialEvent(ch *zsim.Choices) ([]byte, string) {
 		default:
 			tag = []byte{0xd9, byte(ch.Intn(3)), byte(ch.Intn(256))}
 		}
+		if ch.Chance(1, 2) {
+			// the tag numbers the decoder has handlers for (timestamp, embedded CBOR, network
+			// address and prefix, embedded JSON, hex string): each handler reads its payload itself
+			tag = [][]byte{{0xc1}, {0xd8, 0x3f}, {0xd9, 0x01, 0x04}, {0xd9, 0x01, 0x05}, {0xd9, 0x01, 0x06}, {0xd9, 0x01, 0x07}}[ch.Intn(6)]
+			zsim.Probe("known_tag_in_front_of_arbitrary_payload")
+		}
 		payload := tagPayloads[ch.Intn(len(tagPayloads))]
+		if ch.Chance(1, 4) {
+			// a string, array or map header that declares megabytes to gigabytes (a positive
+			// length, no top bit set) in front of three bytes: the torn tail of a large field
+			major := byte(2 + ch.Intn(4))
+			payload = [][]byte{
+				{major<<5 | 26, 0x06, 0x00, 0x00, 0x00, 1, 2, 3},
+				{major<<5 | 26, 0x00, 0x80, 0x00, 0x00, 1, 2, 3},
+				{major<<5 | 27, 0, 0, 0, 0, 0x10, 0x00, 0x00, 0x00, 1, 2, 3},
+				{major<<5 | 27, 0, 0, 0, 1, 0x00, 0x00, 0x00, 0x00, 1, 2, 3},
+			}[ch.Intn(4)]
+			zsim.Probe("tag_then_large_declared_length_short_payload")
+		}
 		buf := []byte{0xbf, 0x61, 'k'}
 		buf = append(buf, tag...)
 		buf = append(buf, payload...)
